@@ -258,7 +258,7 @@ def run(res):
     while cnt < nmut // 2 and j < 50 * nmut:
         i = j % len(progs)
         j += 1
-        cand = [t for t in toks[i] if progs[i][t[1]:t[2] + 1] in ("[", "(", "{", ",", ":", ":=", "=", "+", "-", "*", "==", "&&", "||", "?", "!", "in", "return", "case", ".", "<-", "|")]
+        cand = [t for t in (toks[i] or []) if progs[i][t[1]:t[2] + 1] in ("[", "(", "{", ",", ":", ":=", "=", "+", "-", "*", "==", "&&", "||", "?", "!", "in", "return", "case", ".", "<-", "|")]
         if not cand:
             continue
         t = rng.choice(cand)
